@@ -1,4 +1,4 @@
-"""DBOS half of C36 under latency: the real `DBOSIdleReleaseDecorator` + the real `SqliteRunLifecycleLock`
+"""DBOS half of C36 and C26 under latency: the real `DBOSIdleReleaseDecorator` + the real `SqliteRunLifecycleLock`
 over a stand-in inner engine, with **latency gates** (virtual time) around every lifecycle-store call and
 around every delivery to the run, and client sends placed inside those windows.
 
@@ -16,6 +16,8 @@ fixes, in milliseconds of virtual time,
     sends: [{at, n}]             client `send_event(Ext(n))` calls at absolute times (the run starts at 0 and is idle at once)
     quiet                        how long nothing is sent after the last send before the facts are read
     final                        then send Ext(99), which must reload the run (exactly once) and finish it
+    work                         (C26) virtual ms step `b` works on a client event (one number, or {n: ms}): `running work` exists
+    crash_horizon                (C26) a client send that is still open at the end is followed past CRASH_TIMEOUT_SECONDS (snapshot `late`)
 
 Three things come out of one execution:
 
@@ -23,8 +25,8 @@ Three things come out of one execution:
   rcomplete uspawn utry usend ufinish wfstep`, M7 part B) and after each the observable state of the real stack (row read back
   with sqlite3, incarnation up/down, the run's mailbox, ticks consumed, releaser / sender positions, *whether a releaser's
   task ended before its release did*) is compared with the model's.
-* **S**: the rules of `monitors()` on the same observations — independent of the model; every bound is computed from the
-  case's own latencies.
+* **S**: the rules of `monitors()` (C36) / `monitors_c26()` (C26) on the same observations — independent of the model; every
+  bound is computed from the case's own latencies.
 * the replayable case itself.
 
 The lifecycle row is inserted by the harness (`RunLifecycleLock.create` has no production call site: known finding
@@ -543,7 +545,7 @@ def run_case(case: dict) -> dict:
                 # C26: a client send that has still not been handed to the run is followed past the crash timeout (the point at which a
                 # sender that polls `releasing` may take the run over) -- only then is "never processed" a fact and not a slow release
                 def open_sends() -> list[int]:
-                    closed = {e.get("k") for e in ev if e["ev"] in ("send_task_ended", "send_refused")}
+                    closed = {e.get("k") for e in ev if e["ev"] in ("send_task_ended", "send_refused", "send_done")}
                     return [k for k in sorted(O["k2n"]) if O["res"].get(k) != "done" and k not in closed]
 
                 if open_sends():
@@ -886,7 +888,8 @@ def monitors_c26(o: dict) -> list[tuple[str, str]]:
         t_last = max([pos(e) for e in ev if e["ev"] == "snapshot"] or [len(ev)])
         ended = [e for e in ev if e["ev"] == "send_task_ended" and e.get("k") == k and pos(e) < t_last]  # later: the harness' own teardown
         rowst = _row_state(last["row"])[0]
-        if pc != "done" and not ended:
+        returned = [e for e in ev if e["ev"] == "send_done" and e.get("k") == k]
+        if pc != "done" and not ended and not returned:
             if "late" not in facts:
                 continue  # not followed past the crash timeout: no verdict on `eventually`
             sig = f"{prop}/dbos_event_never_processed:sender_{pc}:row_{rowst}"
@@ -917,8 +920,10 @@ def monitors_c26(o: dict) -> list[tuple[str, str]]:
                     + (f"; sender {resuming[-1]['k']} had taken the resume at {resuming[-1]['t']} ms (row -> active) and had not started the new control loop yet" if resuming and not rel else "")
                     + ") and was never consumed")
         else:
-            sig = f"{prop}/dbos_event_never_processed:not_delivered:row_{rowst}"
-            what = f"its sender reports done but the tick never reached the run; lifecycle {last['row']}"
+            sig = f"{prop}/dbos_event_never_processed:not_delivered:sender_{pc}"
+            what = (f"its sender returned at {returned[0]['t'] if returned else '?'} ms (position `{pc}`, try_begin_resume answers "
+                    f"{_compress([(e['t'], e['res']) for e in ev if e['ev'] == 'try_resume' and e['k'] == k])}) but the tick was neither delivered to the run's mailbox nor folded into a reload; "
+                    f"lifecycle {last['row']}")
         out.append((sig, f"{head}: Ext({n}) sent at {s['t']} ms (accepted) was never processed to the end by step b (completed: {completed}): {what}"))
     seen: set[str] = set()
     return [(sig, what) for sig, what in out if not (sig in seen or seen.add(sig))]  # the first occurrence of each signature
